@@ -30,6 +30,11 @@ type ndef struct {
 	id   string // body class, used in signatures
 	// extra call sites (argument lists) that make the body's behaviour visible
 	calls [][]*exprgen.Node
+	// const-only bodies: the same body with the parameter-fed optional
+	// argument left out, i.e. what the helper does when it silently falls back
+	// to its default. A difference is filed under the const-only signature only
+	// if the function returns exactly this.
+	dflt *exprgen.Node
 }
 
 var (
@@ -47,33 +52,33 @@ var (
 // argument fed from a parameter.
 func firstDefs() []ndef {
 	return []ndef{
-		{"double", C("sumi", R(0), R(0)), "double", nil},
-		{"add", C("sumi", R(0), R(1)), "add2", nil},
-		{"pick", C("switch", C("eq", R(0), W("a")), W("isa"), C("eq", R(0), W("b")), W("isb"), W("other")), "switch-doc", nil},
-		{"dflt", C("coalesce", R(1), K("key"), W("dflt")), "coalesce-key", nil},
-		{"lazy", C("if", R(1), C("upper", R(0)), C("lower", R(0))), "lazy-if", nil},
-		{"swap", C("format", W("%s/%s"), R(1), R(0)), "format-swap", nil},
-		{"third", S(R(2), L("-"), R(0)), "third-text", nil},
-		{"incall", C("@map", R(0), C("sumi", R(0), K("n"))), "map-rebinding", nil},
-		{"small", C("lt", R(0), W("5")), "typed-lt", nil},
-		{"three", C("sumi", W("1"), W("2")), "constant", nil},
-		{"wrap", S(L("<"), C("upper", R(0)), L("|"), K("key"), L(">")), "text-around", nil},
-		{"csvline", C("csv", R(0), R(1), L("a b")), "quoted-literal", nil},
-		{"rep", C("repeat", R(0), W("2")), "rejected-at-load", nil},
+		{"double", C("sumi", R(0), R(0)), "double", nil, nil},
+		{"add", C("sumi", R(0), R(1)), "add2", nil, nil},
+		{"pick", C("switch", C("eq", R(0), W("a")), W("isa"), C("eq", R(0), W("b")), W("isb"), W("other")), "switch-doc", nil, nil},
+		{"dflt", C("coalesce", R(1), K("key"), W("dflt")), "coalesce-key", nil, nil},
+		{"lazy", C("if", R(1), C("upper", R(0)), C("lower", R(0))), "lazy-if", nil, nil},
+		{"swap", C("format", W("%s/%s"), R(1), R(0)), "format-swap", nil, nil},
+		{"third", S(R(2), L("-"), R(0)), "third-text", nil, nil},
+		{"incall", C("@map", R(0), C("sumi", R(0), K("n"))), "map-rebinding", nil, nil},
+		{"small", C("lt", R(0), W("5")), "typed-lt", nil, nil},
+		{"three", C("sumi", W("1"), W("2")), "constant", nil, nil},
+		{"wrap", S(L("<"), C("upper", R(0)), L("|"), K("key"), L(">")), "text-around", nil, nil},
+		{"csvline", C("csv", R(0), R(1), L("a b")), "quoted-literal", nil, nil},
+		{"rep", C("repeat", R(0), W("2")), "rejected-at-load", nil, nil},
 		// helpers with an optional argument that must be a constant ("delim",
 		// initial value, comment prefix, time format, time zone), fed from a
 		// parameter of the function; one signature for the class
-		{"spl", C("@split", R(0), R(1)), constOnly, [][]*exprgen.Node{{L("a,b"), L(",")}}},
-		{"jn", C("@join", R(0), R(1)), constOnly, [][]*exprgen.Node{{C("@", W("a"), W("b")), W("-")}}},
-		{"red", C("@reduce", R(0), C("sumi", R(0), R(1)), R(1)), constOnly, [][]*exprgen.Node{{C("@", W("1"), W("2")), W("10")}}},
-		{"lk", C("lookup", R(0), L("c d"), R(1)), constOnly, [][]*exprgen.Node{{W("c"), W("c")}}},
-		{"hk", C("haskey", R(0), L("c d"), R(1)), constOnly, [][]*exprgen.Node{{W("c"), W("c")}}},
-		{"tfm", C("time", R(0), R(1)), constOnly, [][]*exprgen.Node{{L("2020|03|01"), L("2006|01|02")}}},
-		{"ttz", C("time", R(0), L(""), R(1)), constOnly, [][]*exprgen.Node{{L("2020-03-01 10:00:00"), W("America/New_York")}}},
-		{"tff", C("timeformat", R(0), R(1)), constOnly, [][]*exprgen.Node{{W("1583020800"), W("YEAR")}}},
-		{"tftz", C("timeformat", R(0), W("RFC3339"), R(1)), constOnly, [][]*exprgen.Node{{W("1583020800"), W("America/New_York")}}},
-		{"btf", C("buckettime", R(0), W("days"), R(1)), constOnly, [][]*exprgen.Node{{L("2020|03|01"), L("2006|01|02")}}},
-		{"tatz", C("timeattr", R(0), W("weekday"), R(1)), constOnly, [][]*exprgen.Node{{W("1583020800"), W("America/New_York")}}},
+		{"spl", C("@split", R(0), R(1)), constOnly, [][]*exprgen.Node{{L("a,b"), L(",")}}, C("@split", R(0))},
+		{"jn", C("@join", R(0), R(1)), constOnly, [][]*exprgen.Node{{C("@", W("a"), W("b")), W("-")}}, C("@join", R(0))},
+		{"red", C("@reduce", R(0), C("sumi", R(0), R(1)), R(1)), constOnly, [][]*exprgen.Node{{C("@", W("1"), W("2")), W("10")}}, C("@reduce", R(0), C("sumi", R(0), R(1)))},
+		{"lk", C("lookup", R(0), L("c d"), R(1)), constOnly, [][]*exprgen.Node{{W("c"), W("c")}}, C("lookup", R(0), L("c d"))},
+		{"hk", C("haskey", R(0), L("c d"), R(1)), constOnly, [][]*exprgen.Node{{W("c"), W("c")}}, C("haskey", R(0), L("c d"))},
+		{"tfm", C("time", R(0), R(1)), constOnly, [][]*exprgen.Node{{L("2020|03|01"), L("2006|01|02")}}, C("time", R(0))},
+		{"ttz", C("time", R(0), L(""), R(1)), constOnly, [][]*exprgen.Node{{L("2020-03-01 10:00:00"), W("America/New_York")}}, C("time", R(0), L(""))},
+		{"tff", C("timeformat", R(0), R(1)), constOnly, [][]*exprgen.Node{{W("1583020800"), W("YEAR")}}, C("timeformat", R(0))},
+		{"tftz", C("timeformat", R(0), W("RFC3339"), R(1)), constOnly, [][]*exprgen.Node{{W("1583020800"), W("America/New_York")}}, C("timeformat", R(0), W("RFC3339"))},
+		{"btf", C("buckettime", R(0), W("days"), R(1)), constOnly, [][]*exprgen.Node{{L("2020|03|01"), L("2006|01|02")}}, C("buckettime", R(0), W("days"))},
+		{"tatz", C("timeattr", R(0), W("weekday"), R(1)), constOnly, [][]*exprgen.Node{{W("1583020800"), W("America/New_York")}}, C("timeattr", R(0), W("weekday"))},
 	}
 }
 
@@ -82,10 +87,10 @@ const constOnly = "const-only-arg-from-param"
 // secondDefs call the first definition f.
 func secondDefs(f string) []ndef {
 	return []ndef{
-		{"twice", C(f, C(f, R(0), R(1)), R(1)), "nested-self", nil},
-		{"flip", C("upper", C(f, R(1), R(0))), "inside-builtin", nil},
-		{"keyed", S(L("["), C(f, R(0), K("key")), L("]")), "key-argument", nil},
-		{"mapped", C("@map", R(0), C(f, R(0), W("x"))), "call-in-map", nil},
+		{"twice", C(f, C(f, R(0), R(1)), R(1)), "nested-self", nil, nil},
+		{"flip", C("upper", C(f, R(1), R(0))), "inside-builtin", nil, nil},
+		{"keyed", S(L("["), C(f, R(0), K("key")), L("]")), "key-argument", nil, nil},
+		{"mapped", C("@map", R(0), C(f, R(0), W("x"))), "call-in-map", nil, nil},
 	}
 }
 
@@ -397,7 +402,21 @@ func (e *env) funcsReplay(c Case) {
 			}
 		}
 	}
-	e.funcsCompare(defs, uq(c.File), plain, uq(c.Template), uq(c.Inline), c.OnDisk, c.Body, "replayed")
+	// the call tree is recovered by printing the candidate call sites
+	var callNode *exprgen.Node
+	if len(defs) > 0 {
+		target := defs[len(defs)-1]
+		sites := callSites(target.name, true)
+		for _, args := range target.calls {
+			sites = append(sites, C(target.name, args...))
+		}
+		for _, cs := range sites {
+			if cs.Print(0) == uq(c.Template) {
+				callNode = cs
+			}
+		}
+	}
+	e.funcsCompare(defs, callNode, uq(c.File), plain, uq(c.Template), uq(c.Inline), c.OnDisk, c.Body, "replayed")
 }
 
 func (e *env) funcsOne(fc funcsCase) {
@@ -420,7 +439,29 @@ func (e *env) funcsOne(fc funcsCase) {
 	e.w.SetCase(func() any {
 		return Case{Part: "funcs", Template: q(callT), File: q(fc.text), Plain: q(fc.plain), Inline: q(inlineT), Body: id, OnDisk: fc.onDisk}
 	})
-	e.funcsCompare(fc.defs, fc.text, fc.plain, callT, inlineT, fc.onDisk, id, fc.layout)
+	e.funcsCompare(fc.defs, fc.call, fc.text, fc.plain, callT, inlineT, fc.onDisk, id, fc.layout)
+}
+
+// defaultedValue evaluates the call with the first definition's body replaced
+// by its dflt form (optional argument left out), inlined, on the builtin table.
+func defaultedValue(defs []ndef, call *exprgen.Node, cx exprgen.Ctx) (v string, ok bool) {
+	if call == nil || len(defs) == 0 || defs[0].dflt == nil {
+		return "", false
+	}
+	m := map[string]*exprgen.Node{defs[0].name: defs[0].dflt}
+	for _, d := range defs[1:] {
+		m[d.name] = d.body
+	}
+	if pi := catch(func() {
+		c, errs := funclib.NewKeyBuilderEx(false).Compile(call.Inline(m).Print(0))
+		if errs != nil || c == nil {
+			return
+		}
+		v, ok = c.BuildKey(cx.Ctx), true
+	}); pi != nil {
+		return "", false
+	}
+	return v, ok
 }
 
 func seqAsArgument(n *exprgen.Node, isArg bool) bool {
@@ -435,7 +476,7 @@ func seqAsArgument(n *exprgen.Node, isArg bool) bool {
 	return false
 }
 
-func (e *env) funcsCompare(defs []ndef, text, plain, callT, inlineT string, onDisk bool, id, layoutDesc string) {
+func (e *env) funcsCompare(defs []ndef, callNode *exprgen.Node, text, plain, callT, inlineT string, onDisk bool, id, layoutDesc string) {
 	w := e.w
 	mk := func(where string) Case {
 		return Case{Part: "funcs", Template: q(callT), File: q(text), Plain: q(plain), Inline: q(inlineT), Body: id, OnDisk: onDisk, Where: where}
@@ -528,6 +569,14 @@ func (e *env) funcsCompare(defs []ndef, text, plain, callT, inlineT string, onDi
 			compared++
 			if got != want {
 				sig := "C10/funcs/differs-from-inline/" + id
+				if id == constOnly {
+					// the known class is exactly: the helper ignored the
+					// parameter-fed optional argument and used its default.
+					// Anything else these bodies do wrong is a different defect.
+					if dv, ok := defaultedValue(defs, callNode, cx); !ok || dv != got {
+						sig = "C10/funcs/differs-from-inline/const-only-body-but-not-the-default/" + defs[0].name
+					}
+				}
 				if w.Param("split", "") == "1" { // diagnosis: one signature per definition set
 					sig += "/" + strings.Join(names, "+")
 				}
